@@ -19,6 +19,7 @@ inductive Err
   | invalidChemFormula | invalidGlycanFormula
   | valueError | typeError | keyError
   | hang          -- the Python loops forever (an empty glycan name in the vocabulary)
+  | special       -- not an exception: the Python value contains inf / nan (opaque, outside the model)
 deriving DecidableEq, Repr
 
 deriving instance DecidableEq for Except
@@ -29,6 +30,7 @@ def Err.name : Err → String
   | .deltaMassComp => "DeltaMassCompositionError" | .invalidModMass => "InvalidModificationMassError"
   | .invalidChemFormula => "InvalidChemFormulaError" | .invalidGlycanFormula => "InvalidGlycanFormulaError"
   | .valueError => "ValueError" | .typeError => "TypeError" | .keyError => "KeyError" | .hang => "HANG"
+  | .special => "SPECIAL"
 
 /-! ## numbers -/
 
@@ -354,7 +356,7 @@ def splitFold : List Str → Comp → Except Err Comp
       | .num v => splitFold r (match d.get? el with
           | some _ => addTo d el v
           | none => setTo d el v)
-      | _ => .error .valueError       -- nan / inf count: outside the model
+      | _ => .error .special          -- nan / inf count: outside the model
     else splitFold (nx :: r) (match d.get? el with
       | some _ => addTo d el Num.one
       | none => setTo d el Num.one)
